@@ -49,6 +49,7 @@ func templates() []template {
 		{"field", []*node{f("users", -1, f("id", 0), f("name", 1)), f("count", 2)}, nil, 3},
 		{"toplevel", []*node{f("users", 0, f("id", -1)), f("count", 1), f("nobody", 2, f("id", -1))}, nil, 3},
 		{"same-alias-objects", []*node{f("users", 0, f("id", -1)), f("users", 1, f("name", 2)), f("count", -1)}, nil, 3},
+		{"same-leaf-in-two-parents", []*node{f("users", -1, f("id", -1), f("name", 0), f("age", 1)), f("users", -1, f("name", 2), f("age", -1))}, nil, 3},
 		{"same-alias-leaves", []*node{f("users", -1, f("name", 0), f("name", 1), f("id", 2), f("age", -1))}, nil, 3},
 		{"inline-fragment", []*node{f("users", -1, f("id", -1), on("User", 0, f("name", 1), f("age", 2)))}, nil, 3},
 		{"spread-twice", []*node{f("users", -1, f("id", -1), sp("F", 0)), f("user(id: 1)", -1, f("age", -1), sp("F", 1))},
@@ -321,6 +322,10 @@ func fedTemplates() []template {
 	return []template{
 		{"fed-fields", []*node{f("users", -1, f("id", -1), f("email", 0), f("age", 1)), f("devices", 2, f("id", -1)), f("admins", -1, f("id", -1))}, nil, 3},
 		{"fed-same-alias", []*node{f("users", 0, f("id", -1)), f("users", 1, f("email", 2)), f("admins", -1, f("id", -1))}, nil, 3},
+		// one leaf in both copies of a repeated parent, with its own directives in each (same service and hop)
+		{"fed-same-leaf-twice", []*node{f("users", -1, f("id", -1), f("name", 0), f("email", 1)), f("users", -1, f("name", 2), f("email", -1))}, nil, 3},
+		{"fed-same-leaf-twice-spread", []*node{f("users", -1, sp("L", 0), f("id", -1)), f("users", -1, sp("L", 1))},
+			[]fragDef{{"L", "User", []*node{f("email", 2), f("name", -1)}}}, 3},
 		{"fed-spread-twice", []*node{f("users", -1, f("id", -1), sp("F", 0)), f("user(id: 1)", -1, f("id", -1), sp("F", 1))},
 			[]fragDef{{"F", "User", []*node{f("email", 2), f("device", -1, f("temp", -1))}}}, 3},
 		{"fed-union", []*node{f("everyone", -1, f("__typename", -1), on("User", 0, f("email", 1), f("id", -1)), on("Admin", 2, f("hiding", -1)))}, nil, 3},
